@@ -242,7 +242,13 @@ def peps_checks(ctx):
         ops = yastn.operators.SpinlessFermions(sym=rng.choice(['Z2', 'U1']))
         geom = fpeps.SquareLattice(dims=(2, 2), boundary='obc')
         occ = {s: ops.vec_n(val=rng.randrange(2)) for s in geom.sites()}
+        before = {k: (id(v), tgen.snapshot(v)) for k, v in occ.items()}
         psi = fpeps.product_peps(geom, occ)
+        after = {k: (id(v), tgen.snapshot(v)) for k, v in occ.items()}
+        ctx.case(dict(kind='product_peps-arguments', rep=rep), nontrivial=True)
+        if before != after:
+            ctx.violation('product_peps changed the dictionary of vectors it was given (entries replaced or modified at %r)' % [k for k in before if before[k] != after.get(k)][:3],
+                          dict(kind='product_peps-mutates-dict'), family='product_peps-mutates-argument-dict')
 
         def snap(p):
             return tuple(sorted((repr(k), tgen.snapshot(v)) for k, v in p._site_data.items() if v is not None))
